@@ -1,5 +1,5 @@
 (** C35 — the data recorder persists every entry exactly once.  Theorems only. *)
-From Akita Require Import Lib.Base Lib.Lts C35.Model C35.Proofs.
+From Akita Require Import Lib.Base Lib.Lts C35.Model C35.Proofs C35.Proofs2.
 Local Open Scope N_scope.
 
 (** Sequential sessions.  For every set of tables (any shapes), every batch size,
@@ -30,6 +30,17 @@ Theorem c35_location_bijection : forall shapes batch ops ord s,
      In (id, loc_lookup id (r_locrows s)) (r_locrows s)).
 Proof. exact location_bijection. Qed.
 Print Assumptions c35_location_bijection.
+
+(** No call panics on a well-formed session: distinct table names, every inserted
+    entry has its table's shape, storable plain fields (no uint64 >= 2^63, no
+    complex) and string location fields — for every batch size and flush order.
+    Together with c35_seq_exactly_once this makes exactly-once unconditional on
+    that domain. *)
+Theorem c35_no_panic : forall shapes batch ops,
+  NoDup (map fst shapes) -> Forall (op_ok shapes) ops ->
+  exists s, run_ops ops (rec_init shapes batch) = Some s.
+Proof. exact no_panic. Qed.
+Print Assumptions c35_no_panic.
 
 (** The two value-domain defects: a storable-looking entry of allowed kinds makes
     the flush panic (model outcome None). *)
